@@ -148,7 +148,13 @@ func runC10(r *vk.Run) {
 		var expr MExpr = leaf
 		conservation := true
 		grp := vk.Subset(rng, c10Names)
-		switch rng.Intn(8) {
+		switch rng.Intn(9) {
+		case 8:
+			// an outer grouping over an inner aggregation that kept no label at all: every inner sample is
+			// {}, so no outer by (...) can bring a label back
+			inner := &VecAgg{Op: vk.Pick(rng, []string{"sum", "count", "max"}), Inner: leaf, Grouped: rng.Bool()}
+			expr = &VecAgg{Op: vk.Pick(rng, []string{"sum", "max", "min", "count"}), Inner: inner, Grouped: true, Group: append(grp, "job"), GroupFirst: rng.Bool()}
+			conservation = false
 		case 6, 7:
 			// range-level by/without below a vector-level by/without (non-additive outer operators too)
 			leaf.Fn = vk.Pick(rng, []string{"max_over_time", "min_over_time", "last_over_time"})
